@@ -30,7 +30,10 @@ from .core import AnalysisError, FuncInfo, Index, dotted, unparse
 
 S_MAX = 4102444800          # 2100-01-01T00:00:00Z
 F_MAX = 999_999
-BOUNDS = {"S": (0, S_MAX), "F": (0, F_MAX), "D": (0, F_MAX)}
+BOUNDS = {"S": (0, S_MAX), "F": (0, F_MAX), "D": (0, F_MAX),
+          "R": (0, 999)}
+# "R": the sub-microsecond remainder (0..999 ns) of a span time given in
+# nanoseconds - OTel times have nanosecond resolution.
 # "D": the fraction digits of the string read as an integer.  A PV / ISO
 # timestamp may carry 1..6 fraction digits, so D == F only for exactly six
 # digits; D is therefore a component of its own (never equal to F).
@@ -67,7 +70,7 @@ class Num:
 
     def show(self) -> str:
         parts = []
-        for k in ("S", "F", "D", "1"):
+        for k in ("S", "F", "D", "R", "1"):
             c = self.coef(k)
             if c:
                 parts.append(f"{c}" + ("" if k == "1" else f"*{k}"))
@@ -124,6 +127,8 @@ class DT:
     micro: Num                    # microsecond field
     zone: str                     # utc | naive_utc | naive_local | naive_wall
     notes: tuple[str, ...] = ()
+    rounding: str = "exact"       # exact | nearest (fields rounded together
+                                  # to the nearest microsecond) | mixed
 
 
 @dataclass
@@ -184,7 +189,8 @@ class TimeInterp:
         if ann == "str":
             return Str("pv", z=True)
         if ann == "int":
-            return Num({"S": Fraction(10**9), "F": Fraction(1000)}, "int")
+            return Num({"S": Fraction(10**9), "F": Fraction(1000),
+                        "R": Fraction(1)}, "int")
         if ann.endswith("datetime"):
             return DT(Num({"S": Fraction(1)}), Num({"F": Fraction(1)}), "utc")
         raise AnalysisError(
@@ -340,22 +346,20 @@ class TimeInterp:
         if isinstance(op, ast.Div) and b.is_const() and b.coef("1"):
             form = {n: c / b.coef("1") for n, c in a.form.items()}
             return self._mk(form, "float", a, b, e)
-        if isinstance(op, ast.FloorDiv) and b.is_const() and typ == "int":
+        if isinstance(op, (ast.FloorDiv, ast.Mod)) and b.is_const() \
+                and typ == "int" and b.coef("1") > 0:
             d = b.coef("1")
-            # floor((aS + bF + c)/d): exact when every non-S... handled for
-            # the two shapes that occur: N // 10**9 -> S ; N // 1000 -> µs
-            if a.coef("S") % d == 0 and 0 <= Num(
-                    {k: c for k, c in a.form.items() if k != "S"}
-            ).max_abs() < d and all(c >= 0 for c in a.form.values()):
-                return Num({"S": a.coef("S") / d}, "int")
-            if all(c % d == 0 for c in a.form.values()):
-                return Num({k: c / d for k, c in a.form.items()}, "int")
-        if isinstance(op, ast.Mod) and b.is_const() and typ == "int":
-            d = b.coef("1")
+            whole = {k: c for k, c in a.form.items() if c % d == 0}
             rest = {k: c for k, c in a.form.items() if c % d != 0}
             if all(c >= 0 for c in rest.values()) and \
                     Num(rest).max_abs() < d:
-                return Num(rest, "int")
+                if isinstance(op, ast.FloorDiv):
+                    return Num({k: c / d for k, c in whole.items() if c},
+                               "int", a.exact, a.err / d)
+                # (whole + rest) % d : the multiples of d vanish only if every
+                # whole term is a multiple of d for all values -> yes
+                return Num({k: c for k, c in rest.items() if c}, "int",
+                           a.exact, a.err)
         raise AnalysisError(
             f"{self.fi.qualname}:{e.lineno}: '{unparse(e)}' is outside the "
             "linear-form vocabulary")
@@ -432,6 +436,14 @@ class TimeInterp:
                        "the microsecond count only when k == 6 ('.5' is half "
                        "a second, not 5 microseconds)"))
                 return Num({"D": Fraction(1)}, "int", True)
+        if name == "divmod" and len(e.args) == 2:
+            q = self._binop(ast.BinOp(left=e.args[0], op=ast.FloorDiv(),
+                                      right=e.args[1], lineno=e.lineno,
+                                      col_offset=0))
+            r = self._binop(ast.BinOp(left=e.args[0], op=ast.Mod(),
+                                      right=e.args[1], lineno=e.lineno,
+                                      col_offset=0))
+            return Seq([q, r])
         if name == "round" and len(e.args) == 1:
             v = self.ev(e.args[0])
             if isinstance(v, Num):
@@ -565,10 +577,19 @@ class TimeInterp:
         sec = {k: c for k, c in v.form.items() if c.denominator == 1}
         rest = {k: c * 10**6 for k, c in v.form.items()
                 if c.denominator != 1}
-        if any(c.denominator != 1 for c in rest.values()):
-            raise AnalysisError(
-                f"fromtimestamp argument {v.show()} is not a whole number "
-                "of microseconds")
+        rounding = "exact"
+        sub = {k: c for k, c in rest.items() if c.denominator != 1}
+        if sub:
+            # a remainder below one microsecond: fromtimestamp rounds the
+            # whole instant to the nearest microsecond (carrying into the
+            # seconds when the fraction rounds up to 1.000000)
+            if Num(sub).max_abs() < 1 and all(c >= 0 for c in sub.values()):
+                rest = {k: c for k, c in rest.items() if k not in sub}
+                rounding = "nearest"
+            else:
+                raise AnalysisError(
+                    f"fromtimestamp argument {v.show()} is not a whole "
+                    "number of microseconds")
         if v.typ == "float" and not v.exact:
             # fromtimestamp rounds half-even to the microsecond: the right
             # microsecond is recovered iff the float error stays < 0.5 µs
@@ -579,7 +600,7 @@ class TimeInterp:
                 f"({'<' if ok else '>='} 0.5 µs rounding radius)")
             if not ok:
                 self.hazards.append((e, "float seconds lose the microsecond"))
-        return DT(Num(sec, "int"), Num(rest, "int"), zone)
+        return DT(Num(sec, "int"), Num(rest, "int"), zone, (), rounding)
 
     def _str_method(self, s: Str, m: str, e: ast.Call) -> Any:
         a0 = self.ev(e.args[0]) if e.args else None
@@ -610,7 +631,7 @@ class TimeInterp:
 
     def _dt_method(self, d: DT, m: str, e: ast.Call) -> Any:
         if m == "replace":
-            out = DT(d.sec, d.micro, d.zone, d.notes)
+            out = DT(d.sec, d.micro, d.zone, d.notes, d.rounding)
             for k in e.keywords:
                 v = self.ev(k.value)
                 if k.arg == "tzinfo" and isinstance(v, Tz):
@@ -620,12 +641,23 @@ class TimeInterp:
                         out.zone = "local_as_utc"
                 elif k.arg == "microsecond" and isinstance(v, Num):
                     out.micro = Num(v.form, "int")
+                    if d.rounding == "nearest" and not v.is_const():
+                        out.rounding = "mixed"
+                        self.hazards.append((
+                            e, "the seconds come from rounding the instant to "
+                               "the nearest microsecond, the microsecond "
+                               "field is set separately: when the "
+                               "sub-second part is >= 999999500 ns the "
+                               "rounding carries into the next second while "
+                               "the microsecond field does not (order and "
+                               "value are lost by almost a second)"))
                 else:
                     raise AnalysisError(
                         f"datetime.replace({k.arg}=...) unsupported")
             return out
         if m == "astimezone":
-            return DT(d.sec, d.micro, "utc" if d.zone in ("utc",) else d.zone)
+            return DT(d.sec, d.micro, "utc" if d.zone in ("utc",) else d.zone,
+                      d.notes, d.rounding)
         if m == "timestamp" and not e.args:
             if d.zone not in ("utc",):
                 self.hazards.append((
